@@ -162,4 +162,69 @@ func init() {
 		Assumptions: append([]string{"math/rand.Shuffle modelled as the identity permutation here (C14 covers shuffling)", "time.Now modelled as an arbitrary int64"}, commonAssumptions...),
 		Explanation: "bounded unrolling of the real engine from Start() through the forced bets with all stakes and bankrolls symbolic",
 	})
+
+	// ---- engine step harnesses shared by C01 C04 C05 C06 C11 C12 ----
+	actJobs := func(tier string) []sym.Job {
+		var js []sym.Job
+		maxN := 3
+		if tier == "thorough" {
+			maxN = 4
+		}
+		for n := 2; n <= maxN; n++ {
+			for layout := 0; layout <= 2; layout++ {
+				if n == 2 && layout == 1 {
+					continue
+				}
+				for street := 0; street < 4; street++ {
+					if tier != "thorough" && n == 3 && street >= 2 {
+						continue // quick: preflop and flop for n=3
+					}
+					for limit := 0; limit <= 1; limit++ {
+						if tier != "thorough" && limit == 1 && n == 3 {
+							continue
+						}
+						for cur := 0; cur < n; cur++ {
+							for op := 0; op < 8; op++ {
+								js = append(js, sym.Job{Pkg: "", Harness: "Harness_Act", Args: []int{n, layout, street, limit, cur, op}})
+							}
+						}
+					}
+				}
+			}
+		}
+		return js
+	}
+	actBounds := func(tier string) []string {
+		b := []string{"wait point: RoundStarted with seat cur to act, every street, every seat to act, every operation of {fold, check, call, allin, bet(x), raise(x), pass, pay(x)} by every seat", "state: every chip account, fold/acted flag, stake and raise size symbolic under Inv_act (I1, I2, turn-structure A/J, >=2 seats alive, >=1 with chips), amounts < 2^40; bet/raise/pay amount: every int64", "layouts: dealer/sb/bb, dead small blind, dealer-blind; limit no / pot"}
+		if tier == "thorough" {
+			return append(b, "n in 2..4 seats")
+		}
+		return append(b, "n=2: every street, both limits; n=3: preflop and flop, no-limit")
+	}
+	actOutside := []string{"more than 4 seats", "chip amounts >= 2^40 in the state (the amount argument itself is unrestricted)", "states violating Inv_act (its inductiveness is part of the check: C05.inv-* assertions; base case: the ready/next harnesses)", "exported engine plumbing (SetCurrentPlayer, BecomeRaiser, Deal, Burn, EmitEvent, LoadState, Resume) is not in the operation alphabet"}
+	actCovers := func(tier string) []string {
+		return []string{"act.continues", "act.closes", "act.refused-size", "act.amount-moderate", "act.amount-extreme"}
+	}
+	actAssume := append([]string{"time.Now modelled as an arbitrary int64 (only UpdatedAt depends on it)", "state snapshot/equality for the refusal clauses: deep copy and reflect.DeepEqual-style equality in the executor, JSON equality in native replays"}, commonAssumptions...)
+	for _, pr := range []struct{ id, expl string }{
+		{"C01", "chip identities after every accepted action from any Inv_act state; published pots add up at closure (settlement clauses: C02 harness, shared assertion ids C01.*)"},
+		{"C04", "refusals (other seats, actions not offered, table operations in the wrong phase) leave the state untouched; the turn passes clockwise to exactly one seat"},
+		{"C05", "turn-structure invariant is inductive; a round closes only when settled; progress within one lap"},
+		{"C06", "every offered action succeeds and leads to a wait point; ranking function decreases"},
+		{"C11", "offered list against the table of the statement; effects of each action"},
+		{"C12", "raise rule and amount robustness for every int64 amount"},
+	} {
+		id := pr.id
+		spec := &PropSpec{
+			ID: id, Pkgs: []string{""},
+			Jobs:         actJobs,
+			AssertPrefix: []string{id + "."},
+			Covers:       actCovers,
+			Bounds:       actBounds,
+			Outside:      actOutside,
+			Assumptions:  actAssume,
+			Explanation:  "inductive step harness Harness_Act over the real engine code (player.go, game.go, event.go): " + pr.expl,
+		}
+		register(spec)
+	}
 }
